@@ -162,6 +162,33 @@ func racePointScenarios(g *groups.G) []raceScenario {
 		sc("operand:Mul", func(P, _ kyber.Point) string { return rmar(G.Point().Mul(s3, P)) }),
 		sc("operand:Set", func(P, _ kyber.Point) string { return rmar(G.Point().Set(P)) }),
 	}
+	// all read-only uses of the same two shared points at once: each call picks the next operation, so that
+	// one goroutine's Sub/Neg/Equal/… runs while others encode or read the same operands (a method that writes
+	// to an operand for a moment and restores it is seen by the readers even where the write itself is
+	// invisible to the race detector, e.g. in assembly)
+	out = append(out, raceScenario{g.Name, "Point.mixed read-only use", g.Name, func() (func() string, string) {
+		P, Q := mk(), mkQ()
+		wP, wQ := mk(), mkQ()
+		ops := []func(P, Q kyber.Point) string{
+			func(P, Q kyber.Point) string { return rmar(Q) },
+			func(P, Q kyber.Point) string { return rmar(G.Point().Sub(P, Q)) },
+			func(P, Q kyber.Point) string { return rmar(G.Point().Add(P, Q)) },
+			func(P, Q kyber.Point) string { return rmar(G.Point().Neg(Q)) },
+			func(P, Q kyber.Point) string { return fmt.Sprint(Q.Equal(Q), P.Equal(Q)) },
+			func(P, Q kyber.Point) string { return rmar(G.Point().Sub(Q, P)) },
+			func(P, Q kyber.Point) string { return rmar(P) },
+			func(P, Q kyber.Point) string { return rmar(G.Point().Mul(s3, Q)) },
+		}
+		want := make([]string, len(ops))
+		for i, f := range ops {
+			want[i] = f(wP, wQ)
+		}
+		var ctr int64
+		return func() string {
+			i := int(atomic.AddInt64(&ctr, 1)) % len(ops)
+			return fmt.Sprint(ops[i](P, Q) == want[i])
+		}, "true"
+	}})
 	if g.CanEmbed {
 		data := []byte("C20 shared data")
 		mkE := func() kyber.Point { return G.Point().Embed(data, kc.NewRng(99)) }
